@@ -30,6 +30,7 @@ TABLE = {
     "c07type": (["n1", "[", "]", "!", "{", "}", ":", "int"], "PNone", "PNone", 5, 6),
     "c07fs": (["n1", "{", "}", ":", "(", ")", "int", "...", "on", "@"], "PNone", "PNone", 4, 5),
     "items": (["{", "}", "n1", ":", "[", "]", "!", "bad", "uni", "comma", "comment", "str", "...", "$", "(", "type"], "PNone", "PNone", 3, 4),
+    "extschema": (["@", "n1", "{", "}", "query", ":", "mutation", "(", ")", "int"], "PExtSchema", "PNone", 4, 6),
     "frag": (["n1", "on", "@", "{", "}", "...", "(", ")", ":"], "PFrag", "PNone", 4, 6),
 }
 
